@@ -1376,10 +1376,7 @@ theorem accept_iff_completed_partial (reg : List (Str × DecK)) (rb : ReqBody) (
             simp only [hdec] at hmod ⊢
             unfold validateValue at hmod ⊢
             simp only [Bool.not_true, Bool.false_eq_true, if_false] at hmod ⊢
-            by_cases hu : dfltUnderNot s = true
-            · simp [hu] at hmod
-            · simp only [hu, Bool.false_eq_true, if_false]
-              refine Iff.trans (b := SatReq exro s (complete exro s v)) ?_ ?_
+            · refine Iff.trans (b := SatReq exro s (complete exro s v)) ?_ ?_
               · rw [← hvis]
                 cases visD true exro s v <;> simp [Outcome.isOk]
               · constructor
